@@ -619,10 +619,14 @@ fn scan_order(store: &RdfStore) -> String {
 struct Gen {
     r: Rng,
     nv: usize,
-    /// constants that occur in the data (by position class) and some that do not
+    data: Vec<(usize, usize, usize)>,
     subj: Vec<usize>,
     pred: Vec<usize>,
     obj: Vec<usize>,
+}
+
+fn is_blank(c: usize) -> bool {
+    c == 4 || c == 5
 }
 
 impl Gen {
@@ -632,10 +636,18 @@ impl Gen {
     fn pos(&mut self, pool: &[usize], p_var: u64) -> PT {
         if self.r.chance(p_var, 100) { self.var() } else { PT::Const(*self.r.pick(pool)) }
     }
+    /// a triple pattern: mostly a data triple with some positions turned into variables (so that
+    /// it matches), otherwise arbitrary constants (which mostly do not occur)
     fn tp(&mut self, linear: bool) -> TP {
         loop {
-            let (sp, pp, op) = (self.subj.clone(), self.pred.clone(), self.obj.clone());
-            let t = [self.pos(&sp, 75), self.pos(&pp, 35), self.pos(&op, 65)];
+            let t: TP = if !self.data.is_empty() && self.r.chance(3, 4) {
+                let d = *self.r.pick(&self.data.clone());
+                let mut mk = |g: &mut Gen, c: usize, p_var: u64| if is_blank(c) || g.r.chance(p_var, 100) { g.var() } else { PT::Const(c) };
+                [mk(self, d.0, 70), mk(self, d.1, 30), mk(self, d.2, 60)]
+            } else {
+                let (sp, pp, op) = (self.subj.clone(), self.pred.clone(), self.obj.clone());
+                [self.pos(&sp, 75), self.pos(&pp, 35), self.pos(&op, 65)]
+            };
             let vs: Vec<usize> = t.iter().filter_map(|p| if let PT::Var(v) = p { Some(*v) } else { None }).collect();
             let mut d = vs.clone();
             d.sort();
@@ -652,13 +664,21 @@ impl Gen {
             _ => 3,
         };
         // mostly linear patterns; now and then `?s ?p ?s`
-        let ts = (0..k).map(|_| { let lin = !self.r.chance(1, 12); self.tp(lin) }).collect();
+        let ts = (0..k).map(|_| { let lin = !self.r.chance(1, 14); self.tp(lin) }).collect();
         Elem::Triples(ts)
     }
     fn atom(&mut self) -> Expr {
         let consts: Vec<usize> = vec![0, 1, 3, 6, 7, 10, 11, 12, 18, 19, 20, 22];
         let a = self.var();
-        let b = if self.r.chance(1, 3) { self.var() } else { PT::Const(*self.r.pick(&consts)) };
+        let b = if self.r.chance(1, 3) {
+            self.var()
+        } else if !self.data.is_empty() && self.r.chance(1, 2) {
+            let d = *self.r.pick(&self.data.clone());
+            let c = *self.r.pick(&[d.0, d.2]);
+            PT::Const(if is_blank(c) { 0 } else { c })
+        } else {
+            PT::Const(*self.r.pick(&consts))
+        };
         match self.r.below(10) {
             0..=3 => Expr::Eq(a, b),
             4..=5 => Expr::Ne(a, b),
@@ -678,7 +698,7 @@ impl Gen {
     }
     fn group(&mut self, depth: u32) -> Vec<Elem> {
         let mut g = vec![];
-        if !self.r.chance(1, 25) {
+        if !self.r.chance(1, 30) {
             g.push(self.triples());
         }
         let extra = match self.r.below(10) {
@@ -706,7 +726,7 @@ impl Gen {
                 }
             }
         }
-        if g.len() > 1 && self.r.chance(1, 6) {
+        if g.len() > 1 && self.r.chance(1, 8) {
             // an OPTIONAL in front of a required pattern, or a filter first
             g.rotate_right(1);
         }
@@ -734,6 +754,61 @@ impl Gen {
             })
             .collect()
     }
+    /// Give every triple pattern a constant subject or predicate: the scans then read an index
+    /// vector (insertion order). A scan of the primary hash set comes in an order that differs
+    /// from store to store (`ahash::RandomState`), so lines whose outcome depends on the order of
+    /// rows (null positions, slices, updates under a filter) must not contain one.
+    fn index_ordered(&mut self, g: &mut Vec<Elem>) {
+        for e in g.iter_mut() {
+            match e {
+                Elem::Triples(ts) => {
+                    for t in ts.iter_mut() {
+                        if matches!(t[0], PT::Var(_)) && matches!(t[1], PT::Var(_)) {
+                            let p = if !self.data.is_empty() && self.r.chance(4, 5) { self.r.pick(&self.data.clone()).1 } else { *self.r.pick(&self.pred.clone()) };
+                            t[1] = PT::Const(p);
+                        }
+                    }
+                }
+                Elem::Optional(g) | Elem::Group(g) => self.index_ordered(g),
+                Elem::Union(a, b) => {
+                    self.index_ordered(a);
+                    self.index_ordered(b);
+                }
+                Elem::Filter(_) => {}
+            }
+        }
+    }
+}
+
+fn has_optional(g: &[Elem]) -> bool {
+    g.iter().any(|e| match e {
+        Elem::Optional(_) => true,
+        Elem::Group(g) => has_optional(g),
+        Elem::Union(a, b) => has_optional(a) || has_optional(b),
+        _ => false,
+    })
+}
+fn has_filter(g: &[Elem]) -> bool {
+    g.iter().any(|e| match e {
+        Elem::Filter(_) => true,
+        Elem::Group(g) | Elem::Optional(g) => has_filter(g),
+        Elem::Union(a, b) => has_filter(a) || has_filter(b),
+        _ => false,
+    })
+}
+fn has_nonlinear(g: &[Elem]) -> bool {
+    g.iter().any(|e| match e {
+        Elem::Triples(ts) => ts.iter().any(|t| {
+            let vs: Vec<usize> = t.iter().filter_map(|p| if let PT::Var(v) = p { Some(*v) } else { None }).collect();
+            let mut d = vs.clone();
+            d.sort();
+            d.dedup();
+            d.len() != vs.len()
+        }),
+        Elem::Group(g) | Elem::Optional(g) => has_nonlinear(g),
+        Elem::Union(a, b) => has_nonlinear(a) || has_nonlinear(b),
+        _ => false,
+    })
 }
 
 fn grp_vars(g: &[Elem], out: &mut Vec<usize>) {
@@ -765,7 +840,7 @@ fn gen_data(r: &mut Rng) -> Vec<(usize, usize, usize)> {
     let subj: &[usize] = if small { &[0, 1, 3, 4] } else { &[0, 1, 3, 4, 5, 13] };
     let pred: &[usize] = if small { &[2, 3] } else { &[2, 3, 0, 14] };
     let obj: &[usize] = if small { &[0, 1, 3, 6, 7, 10, 11] } else { &[0, 1, 3, 4, 5, 6, 7, 8, 9, 10, 11, 12, 13, 16, 18, 19, 20, 21, 22] };
-    let n = r.range(0, if small { 8 } else { 14 });
+    let n = if r.chance(1, 20) { 0 } else { r.range(2, if small { 9 } else { 16 }) };
     let mut v: Vec<(usize, usize, usize)> = vec![];
     for _ in 0..n {
         if !v.is_empty() && r.chance(1, 8) {
@@ -782,30 +857,33 @@ fn triples_arg(v: &[(usize, usize, usize)]) -> String {
     if v.is_empty() { "-".into() } else { v.iter().map(|(a, b, c)| format!("{}.{}.{}", a, b, c)).collect::<Vec<_>>().join(",") }
 }
 
+fn order_arg(order: &[(usize, bool)]) -> String {
+    if order.is_empty() { "-".into() } else { order.iter().map(|(v, d)| format!("{}{}", v, if *d { "d" } else { "a" })).collect::<Vec<_>>().join(",") }
+}
+
 pub fn generate(seed: u64, cases: usize, out: &mut Vec<String>) {
-    if std::env::var("VH_LOUD").is_ok() { std::panic::set_hook(Box::new(|i| eprintln!("{}", i))); }
     let mut r = Rng::new(seed ^ 0x73_7061_7271);
     for c in 0..cases {
         out.push(format!("# case {} seed {}", c, seed));
         let data = gen_data(&mut r);
         let io = if r.chance(1, 2) { "1" } else { "0" };
         let ts = triples_arg(&data);
-        // the iteration order of the real hash set (the same for both configurations)
-        let scan = scan_order(&build(io, &ts).store);
-        let nv = r.range(2, 5) as usize;
+        let nv = r.range(2, 4) as usize;
         let mut g = Gen {
             r: Rng::new(r.next()),
             nv,
+            data: data.clone(),
             subj: vec![0, 1, 3, 13],
             pred: vec![2, 3, 0, 14],
             obj: vec![0, 1, 3, 6, 7, 9, 10, 11, 12, 18, 19, 20],
         };
         let n_lines = r.range(2, 5);
         for _ in 0..n_lines {
-            let head = format!("{} {} {} {}", io, ts, scan, nv + 1);
+            // the scan-order field is `-` (insertion order): see `index_ordered`
+            let head = format!("{} {} - {}", io, ts, nv + 1);
             match r.below(100) {
                 0..=59 => {
-                    let grp = g.group(2);
+                    let mut grp = g.group(2);
                     let mut vars = vec![];
                     grp_vars(&grp, &mut vars);
                     let distinct = r.chance(1, 5);
@@ -841,22 +919,26 @@ pub fn generate(seed: u64, cases: usize, out: &mut Vec<String>) {
                     } else {
                         (None, None)
                     };
+                    let sliced = off.is_some() || lim.is_some();
+                    if has_optional(&grp) || sliced {
+                        g.index_ordered(&mut grp);
+                    }
                     let q = format!(
                         "{};{};{};{};{};{}",
                         if distinct { 1 } else { 0 },
                         proj.map(|p| join(&p)).unwrap_or("*".into()),
-                        if order.is_empty() { "-".into() } else { order.iter().map(|(v, d)| format!("{}{}", v, if *d { "d" } else { "a" })).collect::<Vec<_>>().join(",") },
+                        order_arg(&order),
                         off.map(|x| x.to_string()).unwrap_or("-".into()),
                         lim.map(|x| x.to_string()).unwrap_or("-".into()),
                         grp_tok(&grp)
                     );
                     out.push(format!("sparql sel {} {}", head, q));
-                    if (off.is_some() || lim.is_some()) && order.is_empty() {
+                    if sliced && order.is_empty() {
                         out.push(format!("sparql chk {} {}", head, q));
                     }
                 }
                 60..=74 => {
-                    let grp = g.group(1);
+                    let mut grp = g.group(1);
                     let mut vars = vec![];
                     grp_vars(&grp, &mut vars);
                     let alias = nv; // a variable that is not used in the pattern
@@ -867,13 +949,16 @@ pub fn generate(seed: u64, cases: usize, out: &mut Vec<String>) {
                     keys.push(alias);
                     let order: Vec<(usize, bool)> = if r.chance(1, 4) { keys.iter().map(|v| (*v, r.chance(1, 3))).collect() } else { vec![] };
                     let lim = if !order.is_empty() && r.chance(1, 2) { Some(r.below(4)) } else { None };
+                    if has_optional(&grp) || lim.is_some() {
+                        g.index_ordered(&mut grp);
+                    }
                     let q = format!(
                         "{};{};{};{};{};-;{};{}",
                         if distinct { 1 } else { 0 },
                         arg.map(|v| v.to_string()).unwrap_or("*".into()),
                         alias,
                         if gb.is_empty() { "-".into() } else { join(&gb) },
-                        if order.is_empty() { "-".into() } else { order.iter().map(|(v, d)| format!("{}{}", v, if *d { "d" } else { "a" })).collect::<Vec<_>>().join(",") },
+                        order_arg(&order),
                         lim.map(|x| x.to_string()).unwrap_or("-".into()),
                         grp_tok(&grp)
                     );
@@ -888,7 +973,7 @@ pub fn generate(seed: u64, cases: usize, out: &mut Vec<String>) {
                             (*r.pick(&[0usize, 1, 3, 13, 6]), *r.pick(&[2usize, 3, 14, 6]), *r.pick(&[0usize, 1, 3, 6, 7, 9, 10, 11, 12, 19, 22]))
                         };
                         // blank nodes cannot be written as constants
-                        let fix = |c: usize| if c == 4 || c == 5 { 0 } else { c };
+                        let fix = |c: usize| if is_blank(c) { 0 } else { c };
                         [PT::Const(fix(t.0)), PT::Const(fix(t.1)), PT::Const(fix(t.2))]
                     };
                     let u = match r.below(10) {
@@ -900,7 +985,10 @@ pub fn generate(seed: u64, cases: usize, out: &mut Vec<String>) {
                             format!("DW[{}]", tps_tok(&ts))
                         }
                         _ => {
-                            let grp = g.group(1);
+                            let mut grp = g.group(1);
+                            if has_optional(&grp) || has_filter(&grp) {
+                                g.index_ordered(&mut grp);
+                            }
                             let mut vars = vec![];
                             grp_vars(&grp, &mut vars);
                             let mut tmpl = |gg: &mut Gen, r: &mut Rng| -> Vec<TP> {
